@@ -231,7 +231,7 @@ func anyContent(r *core.Run) {
 			}
 			var cond ast.Expr
 			if len(b.Succs) == 2 && len(b.Nodes) > 0 {
-				cond, _ = b.Nodes[len(b.Nodes)-1].(ast.Expr)
+				cond = core.BlockCond(b)
 			}
 			for i, s := range b.Succs {
 				walk(s, has || (cond != nil && nonNilEdge(cond, i == 0)))
